@@ -35,6 +35,10 @@ func jdoc(seg []byte) []string {
 	if !ok {
 		return []string{"nob64"}
 	}
+	return jdocRaw(raw)
+}
+
+func jdocRaw(raw []byte) []string {
 	if !json.Valid(raw) {
 		return []string{"bad"}
 	}
@@ -107,6 +111,72 @@ func init() {
 		return "desc " + hxs(i.Description)
 	}
 	reemit["jwtfile"] = func(a []string) { emit("jwtfile", jwtArgs(unhx(a[0]))...) }
+	// json <text> T <ground truth>: what the repository's JSON reading (unmarshalObject, reached through the exported
+	// ParseJWT with the text as the header segment) makes of a text: "obj n (name kind value)*" sorted by name, or "bad"
+	// (syntax error, not an object, null, data after the value).  Compared with the Lean model Json.doc and with the
+	// RFC 8259 ground truth of jdocRaw.
+	ops["json"] = func(a []string) string {
+		raw := unhx(a[0])
+		j, err := file.ParseJWT([]byte(base64.RawURLEncoding.EncodeToString(raw) + ".e30.QQ"))
+		if err != nil || j == nil || j.Header == nil {
+			return "bad"
+		}
+		return strings.Join(canonDoc(j.Header), " ")
+	}
+	reemit["json"] = func(a []string) { emitJSON(unhx(a[0])) }
+}
+
+func canonDoc(m map[string]any) []string {
+	keys := make([]string, 0, len(m))
+	for k := range m {
+		keys = append(keys, k)
+	}
+	sort.Strings(keys)
+	out := []string{"obj", fmt.Sprint(len(keys))}
+	for _, k := range keys {
+		switch v := m[k].(type) {
+		case string:
+			out = append(out, hxs(k), "s", hxs(v))
+		case json.Number:
+			if r, ok := new(big.Rat).SetString(string(v)); ok {
+				fl := new(big.Int).Div(r.Num(), r.Denom())
+				kind, val := canonNum(fl)
+				out = append(out, hxs(k), kind, val)
+			} else {
+				out = append(out, hxs(k), "o", "-")
+			}
+		default:
+			out = append(out, hxs(k), "o", "-")
+		}
+	}
+	return out
+}
+
+// canonNum: a floor of up to 64 bits as its decimal text (kind n), a larger one by its sign alone (kind N): printing a
+// million-digit number helps nobody
+func canonNum(fl *big.Int) (string, string) {
+	if fl.BitLen() <= 64 {
+		return "n", hxs(fl.String())
+	}
+	if fl.Sign() < 0 {
+		return "N", hxs("-")
+	}
+	return "N", hxs("+")
+}
+
+func emitJSON(raw []byte) {
+	gt := jdocRaw(raw)
+	if gt[0] == "null" {
+		gt = []string{"bad"}
+	}
+	for i := 2; i+2 < len(gt); i += 3 {
+		if gt[i+1] == "n" {
+			if fl, ok := new(big.Int).SetString(string(unhx(gt[i+2])), 10); ok {
+				gt[i+1], gt[i+2] = canonNum(fl)
+			}
+		}
+	}
+	emit("json", append([]string{hx(raw), "T"}, gt...)...)
 }
 
 func genC18(tier string, r *rng) {
@@ -282,4 +352,120 @@ func genC18(tier string, r *rng) {
 		emitJ(segs[0] + "." + segs[1] + ".=")
 		emitJ(segs[0] + "." + segs[1] + ".====")
 	}
+	genJSONTexts(tier, r, randObj, pickKeys)
+}
+
+// genJSONTexts: texts for the `json` operation (the repository's JSON reading against the Lean model Json.doc and the
+// RFC 8259 ground truth): objects as the token generator builds them, every escape and every kind of broken escape,
+// surrogates, octets that are not UTF-8, the number grammar and the limits of the exact floor, white space, nesting up to
+// and beyond the library's limit, repeated names, text after the value, structural near misses, and single-octet
+// substitutions / insertions / deletions at every position of well-formed objects.
+func genJSONTexts(tier string, r *rng, randObj func([]string) string, pickKeys func() []string) {
+	n := 300
+	if tier == "thorough" {
+		n = 6000
+	}
+	for i := 0; i < n; i++ {
+		emitJSON([]byte(randObj(pickKeys())))
+	}
+	q := func(inner string) string { return `{"k":"` + inner + `"}` }
+	strs := []string{``, `a`, `\"`, `\\`, `\/`, `\b\f\n\r\t`, `\u0041`, `\u00e9`, `\u00E9`, `\u0000`, `\u001f`, `\u007f`, `\u0080`, `\u07ff`, `\u0800`, `\uffff`, `\uFFFD`,
+		`\ud83d\ude00`, `\uD83D\uDE00`, `\ud800`, `\udc00`, `\ud800x`, `\ud800\u0041`, `\ud800\ud800`, `\udc00\ud800`, `\ud800\udbff`, `\ud800\udc00`, `\udbff\udfff`, `\ud800\ue000`,
+		`\ud83d\ude0`, `\ud83d\u`, `\ud83d\`, `\ud83d\n`, `x\ud83dy\ude00z`, `\u12`, `\u12g4`, `\u 123`, `\U0041`, `\x41`, `\a`, `\'`, `\0`, `\`, `\u`,
+		"\x00", "\x1f", "\x7f", "\t", "\n", "\r", "'", "/", "\xc3\xa9", "\xe6\x97\xa5\xe6\x9c\xac", "\xf0\x9f\x98\x80", "\xef\xbf\xbd", "\xef\xbb\xbf",
+		"\x80", "\xbf", "\xc0\x80", "\xc1\xbf", "\xc2", "\xc2\x41", "\xe0\x80\x80", "\xe0\x9f\xbf", "\xe0\xa0\x80", "\xed\x9f\xbf", "\xed\xa0\x80", "\xed\xbf\xbf", "\xee\x80\x80",
+		"\xe2\x82", "\xe2", "\xf0\x8f\xbf\xbf", "\xf0\x90\x80\x80", "\xf4\x8f\xbf\xbf", "\xf4\x90\x80\x80", "\xf5\x80\x80\x80", "\xf0\x9f\x98", "\xf0\x9f", "\xf0", "\xff", "\xfe",
+		"a\x80b\xc3c", "\xc3\xa9\xc3", "\x80\x80\x80"}
+	for _, e := range strs {
+		u, err := strconvUnquoteLoose(e)
+		if err != nil {
+			fatalf("genJSONTexts: %q: %v", e, err)
+		}
+		emitJSON([]byte(q(u)))
+		emitJSON([]byte(`{"` + u + `":"v"}`))
+		emitJSON([]byte(`{"exp":"` + u + `","` + u + `x":1}`))
+	}
+	nums := []string{"0", "-0", "1", "-1", "10", "1700000000", "1.5", "-1.5", "-0.5", "0.5", "0.0", "1e3", "1E3", "1e+3", "1e-3", "1.0e0", "0e0", "0e99999999999999999999", "0.000e-5",
+		"1e1000000", "1e1000001", "-1e1000001", "1e-1000000", "1e-1000001", "1.5e1000001", "0.1e1000001", "0.10e1000002", "1e0000000000000000000002", "1e9223372036854775807", "1e9223372036854775808",
+		"1e-9223372036854775808", "1e-9223372036854775809", "0e9223372036854775808", "12345678901234567890123456789", "-12345678901234567890123456789.999", "4611686018427387903.9", "4611686018427387904",
+		"-4611686018427387903.5", "-4611686018427387904", "0.999999999999999999999999", "-0.000000000000000000000001", "123456789e-9", "-123456789e-9", "1e19", "1e18",
+		"01", "00", "-", "--1", "+1", "1.", ".5", "-.5", "1e", "1e+", "1e-", "1.e3", "1.5.5", "1e3.5", "1e3e3", "0x10", "1_0", "1e1_0", "Infinity", "NaN", "-Infinity", "1a", "1 2", "0.", "-01", "1,5", "١"}
+	for _, x := range nums {
+		emitJSON([]byte(`{"exp":` + x + `}`))
+		emitJSON([]byte(`{"exp":` + x + ` ,"n":[` + x + `]}`))
+		emitJSON([]byte(`{"a":{"b":` + x + `},"iat":` + x + `}`))
+	}
+	for _, w := range []string{" ", "\t", "\n", "\r", "\r\n \t", "\x0b", "\x0c", "\xc2\xa0", "\xef\xbb\xbf", "\x00", "\xe2\x80\x8b", "/**/", "//x\n"} {
+		u, _ := strconvUnquoteLoose(w)
+		for _, tmpl := range []string{`W{"a":"b"}`, `{"a":"b"}W`, `{W"a":"b"}`, `{"a"W:"b"}`, `{"a":W"b"}`, `{"a":"b"W}`, `{"a":"b"W,W"c":1W}`, `{W}`, `W{W}W`, `{"a":[W1W,W2W]}`, `{"a":{W}}`, `nullW`, `Wnull`, `nuWll`, `{"a":1W2}`, `{"a":trWue}`} {
+			emitJSON([]byte(strings.ReplaceAll(tmpl, "W", u)))
+		}
+	}
+	for _, d := range []int{1, 2, 3, 9997, 9998, 9999, 10000, 10001} {
+		for _, br := range [][2]string{{"[", "]"}, {`{"a":`, "}"}} {
+			emitJSON([]byte(`{"x":` + strings.Repeat(br[0], d) + "1" + strings.Repeat(br[1], d) + `,"sub":"s"}`))
+		}
+		emitJSON([]byte(`{"x":` + strings.Repeat("[", d) + strings.Repeat("]", d) + `}`))
+		emitJSON([]byte(`{"x":` + strings.Repeat("[", d) + strings.Repeat("]", d-1) + `}`))
+	}
+	for _, t := range []string{`{"a":"1","a":"2"}`, `{"a":"1","a":2,"a":null}`, `{"a":null,"b":1,"a":"s"}`, `{"a":"1","\u0061":"2"}`, `{"\u0061":"1","a":{"a":3}}`, `{"a":1,"b":2,"a":3,"b":4,"c":5}`, `{"":1,"":"e"}`,
+		`{"exp":1,"exp":"x","exp":2.5}`, `{"a":{"a":1},"a":[1]}`,
+		`{}`, `{} `, `{} x`, `{}{}`, `{},`, `{}]`, `{}}`, "{}\n\n", `{}null`, `{} null`, `null`, ` null `, `nullx`, `null null`, `nul`, `NULL`, `true`, `false`, `[]`, `[{}]`, `"s"`, `5`, `-`, ``, ` `, "\n",
+		`{`, `}`, `{,}`, `{"a"}`, `{"a":}`, `{"a":1,}`, `{,"a":1}`, `{a:1}`, `{'a':1}`, `{"a":1 "b":2}`, `{"a":1;"b":2}`, `{"a"=1}`, `{"a":1}}`, `{{"a":1}}`, `{"a":[1,]}`, `{"a":[,1]}`, `{"a":[1 2]}`, `{"a":[1}`, `{"a":{"b":1]}`,
+		`{"a":tru}`, `{"a":truee}`, `{"a":nul}`, `{"a":TRUE}`, `{"a":True}`, `{"a":fals}`, `{"a":falsee}`, `{"a":nulll}`, `{"a":t}`, `{"a":"b}`, `{"a:"b"}`, `{"a":"b"`, `{"a":"b",`, `{"a":"b","c"`, `{"a":"b","c":`, `{1:2}`, `{null:1}`,
+		`{"a":undefined}`, `{"a":.1}`, `{"a":[]]}`, `{"a":()}`, `["a":1]`, `{"a":"\ud83d\ude00","\ud83d\ude00":"b"}`} {
+		u, err := strconvUnquoteLoose(t)
+		if err != nil {
+			fatalf("genJSONTexts: %q: %v", t, err)
+		}
+		emitJSON([]byte(u))
+	}
+	// one-octet substitutions, insertions and deletions at every position of well-formed objects
+	bases := []string{`{"alg":"HS256","typ":"JWT"}`, `{"sub":"a\"b\\c\u00e9\ud83d\ude00","exp":-1.5e+3,"aud":["x",{"y":null}],"t":true}`, "{ \"iss\" : \"\xc3\xa9\" ,\r\n\t\"nbf\":0.25 }"}
+	subs := []byte{'"', '\\', '{', '}', '[', ']', ':', ',', ' ', '0', '1', '-', '.', 'e', 'u', 'n', 't', 0x00, 0x1f, 0x7f, 0x80, 0xc3, 0xff}
+	for _, b0 := range bases {
+		b, _ := strconvUnquoteLoose(b0)
+		for i := 0; i <= len(b); i++ {
+			if i < len(b) {
+				emitJSON([]byte(b[:i] + b[i+1:]))
+			}
+			ks := subs
+			if tier != "thorough" {
+				ks = []byte{subs[r.intn(len(subs))], subs[r.intn(len(subs))], subs[r.intn(len(subs))]}
+			}
+			for _, c := range ks {
+				emitJSON([]byte(b[:i] + string([]byte{c}) + b[i:]))
+				if i < len(b) {
+					emitJSON([]byte(b[:i] + string([]byte{c}) + b[i+1:]))
+				}
+			}
+		}
+	}
+}
+
+// strconvUnquoteLoose: Go escapes (\xNN, \n, \\ …) resolved, everything else (including \uXXXX, which belongs to the JSON
+// text under test) left as it stands
+func strconvUnquoteLoose(s string) (string, error) {
+	var sb strings.Builder
+	for i := 0; i < len(s); i++ {
+		if s[i] != '\\' || i+1 >= len(s) {
+			sb.WriteByte(s[i])
+			continue
+		}
+		switch s[i+1] {
+		case 'x':
+			if i+3 >= len(s) {
+				return "", fmt.Errorf("short \\x")
+			}
+			var v byte
+			if _, err := fmt.Sscanf(s[i+2:i+4], "%02x", &v); err != nil {
+				return "", err
+			}
+			sb.WriteByte(v)
+			i += 3
+		default:
+			sb.WriteByte(s[i])
+		}
+	}
+	return sb.String(), nil
 }
